@@ -292,6 +292,7 @@ structure Params where
   trackingId : String
   findingCategory : Option String
   findingType : Option String
+  method : Option String
   sites : List String
   measurements : List (String × String)      -- (name, value)
   evaluations : List (String × String)       -- (name, value)
@@ -331,6 +332,7 @@ def mkItems (p : Params) : List GItem :=
    { name := cTrackingUid, vt := "UIDREF", rel := "HAS OBS CONTEXT", value := p.trackingUid }] ++
   optItem cFindingCategory "CODE" "CONTAINS" p.findingCategory ++
   optItem cFinding "CODE" "CONTAINS" p.findingType ++
+  optItem cMethod "CODE" "CONTAINS" p.method ++
   p.sites.map (fun s => { name := cFindingSite, vt := "CODE", rel := "HAS CONCEPT MOD", value := s }) ++
   p.measurements.map (fun x => { name := x.1, vt := "NUM", rel := "CONTAINS", value := x.2 }) ++
   p.evaluations.map (fun x => { name := x.1, vt := "CODE", rel := "CONTAINS", value := x.2 }) ++
@@ -348,6 +350,7 @@ def trackingUidOf (g : Group) : Option String := (valuesOf g cTrackingUid "UIDRE
 def trackingIdOf (g : Group) : Option String := (valuesOf g cTrackingId "TEXT").head?
 def findingTypeOf (g : Group) : Option String := (valuesOf g cFinding "CODE").head?
 def findingCategoryOf (g : Group) : Option String := (valuesOf g cFindingCategory "CODE").head?
+def methodOf (g : Group) : Option String := (valuesOf g cMethod "CODE").head?
 def findingSitesOf (g : Group) : List String := valuesOf g cFindingSite "CODE"
 
 /-- `get_measurements()` -/
